@@ -174,12 +174,18 @@ class Hod(ApiImmut):
         N = int(v['number_of_steps'])
         if not traj_ok(c, self.api, res, N + 1, v['initial_value'], tags):
             return
-        if v['op_hod'] is not None or v['threshold'] > 1e-10 or v['max_rank'] < max(max_ranks(v['operator'].row_dims, [1] * v['operator'].order)):
+        if v['threshold'] > 1e-10 or v['max_rank'] < max(max_ranks(v['operator'].row_dims, [1] * v['operator'].order)):
             return
         A = opm(v['operator'])
         n = A.shape[0]
         h = v['step_size']
         H = hod_series(A, h, order)
+        if v['op_hod'] is not None:
+            # a precomputed series operator was handed in: the two-step recurrence is x_{k+1} = x_{k-1} + op_hod x_k with THAT
+            # operator (value at call entry); the start-up half step is still formed from `operator`
+            snaps = [s for s in st['snaps'] if s.obj is v['op_hod']]
+            H = mat(snaps[0].dense()) if snaps else opm(v['op_hod'])
+            tags = tags + ['op_hod_given']
         x0 = vec(res[0])
         nz = v['normalize']
         if v['previous_value'] is None:
